@@ -146,7 +146,9 @@ class GreedySchedulingFromPlan(Scheduling):
         temporary_resources
 
         """
-        if cluster.is_occupied(machine):
+        if cluster.is_occupied(machine) or machine not in temporary_resources:
+            # The planned machine is busy, reserved, or was already handed
+            # to another task in this round: fall back to any free machine
             if temporary_resources:
                 # so greedy we pop the first resource available
                 machine = temporary_resources[0]
